@@ -71,7 +71,7 @@ func JSONNumber(r *rand.Rand) string {
 		case 0:
 			sb.WriteString("0")
 		case 1:
-			sb.WriteString(fmt.Sprint(r.Intn(100000)))
+			sb.WriteString(fmt.Sprint(r.Intn(6000)))
 		default:
 			sb.WriteString(fmt.Sprint(r.Intn(40)))
 		}
